@@ -945,6 +945,57 @@ def run_hessians(ctx, sq, n):
             todo = [([u], [w]), ([w], [u])]
         for v1, v2 in todo:
             run_hessian_case(ctx, sq, case, desc, v1, v2, seen)
+        # 'magnitude' (the signal scale) among the rows / columns: alone in one list, only partner of a variable ...
+        u, w = rng.sample(allv, 2)
+        forms = [(["magnitude"], [u]), ([u], ["magnitude"]), (["magnitude"], rng.sample(["magnitude", u, w], 3)),
+                 (rng.sample([u, "magnitude"], 2), ["magnitude"]), ([u, w], rng.sample(["magnitude", w], 2)),
+                 (["magnitude"], None), (rng.sample(["magnitude", u, w], 3), None)]
+        m1, m2 = forms[k % len(forms)]
+        ctx.count(("hess-magnitude", desc, tuple(m1), tuple(m2 or ())), nontrivial=True)
+        ctx.cov["hessian_magnitude_cases"] = ctx.cov.get("hessian_magnitude_cases", 0) + 1
+        try:
+            why = magnitude_check(case, sq, m1, m2)
+        except Exception as e:
+            why = "raised %s: %s" % (type(e).__name__, str(e)[:200])
+        if why and "magnitude" not in seen:
+            seen.add("magnitude")
+            ctx.report("Sequence %s, hessian(%s, %s) at %s: %s" % (desc, m1, m2, case["vals"], why),
+                       {"kind": "hessian-magnitude", "case": case, "v1": m1, "v2": m2, "sequence": desc, "why": why},
+                       found_input=True, signature={"site": "Sequence.hessian", "why": "magnitude"})
+
+
+def magnitude_check(case, sq, v1, v2):
+    """'magnitude' scales the signal: d/dmagnitude = signal, d2/dmagnitude dv = d signal/dv, d2/dmagnitude2 = 0.
+    Expected entries from signal(), jacobian(vars) and hessian(vars) of the same sequence without 'magnitude'
+    (those are checked against central differences by hessian_check)"""
+    s = build_shared(case, sq)
+    vals = case["vals"]
+    cols = v2 if v2 is not None else v1
+    union = sorted((set(v1) | set(cols)) - {"magnitude"})
+    sig = s.signal()(dict(vals))
+    if union:
+        _, J = s.jacobian(union)(dict(vals))
+        _, _, H = s.hessian(union)(dict(vals))
+    sg, jac, hes = s.hessian(v1, v2)(dict(vals))
+    if not np.array_equal(sg, sig) or jac.shape != sig.shape + (len(v1),) or hes.shape != sig.shape + (len(v1), len(cols)):
+        return "signal / shapes: %s %s %s" % (sg.shape, jac.shape, hes.shape)
+    scale = 1e-9 * (np.abs(sig).max() + (np.abs(J).max() + np.abs(H).max() if union else 0))
+    for i, a in enumerate(v1):
+        ej = sig if a == "magnitude" else J[..., union.index(a)]
+        if np.abs(jac[..., i] - ej).max() > scale:
+            return "jacobian column of %s is %s, expected %s" % (a, np.round(jac[..., i], 9).tolist(), np.round(ej, 9).tolist())
+        for j, b in enumerate(cols):
+            if a == "magnitude" and b == "magnitude":
+                e, what = np.zeros_like(sig), "0"
+            elif a == "magnitude":
+                e, what = J[..., union.index(b)], "d signal / d %s" % b
+            elif b == "magnitude":
+                e, what = J[..., union.index(a)], "d signal / d %s" % a
+            else:
+                e, what = H[..., union.index(a), union.index(b)], "d2 signal / d%s d%s" % (a, b)
+            if np.abs(hes[..., i, j] - e).max() > scale:
+                return "hessian entry (%s, %s) is %s, expected %s = %s" % (a, b, np.round(hes[..., i, j], 9).tolist(), what, np.round(e, 9).tolist())
+    return None
 
 
 def run_hessian_case(ctx, sq, case, desc, v1, v2, seen):
@@ -1423,6 +1474,16 @@ def replay(ctx, rp):
             outs.add(p.stdout.strip().split("\n")[-1])
         print("replay: %s -> %s" % (rp["call"], sorted(outs)))
         return 0 if outs == {"same"} else 1
+    if kind == "hessian-magnitude":
+        def tup(t):
+            return (t[0], Fraction(t[1])) if t[0] == "c" else (t[0], t[1]) if t[0] == "v" else (t[0], t[1], [tup(a) for a in t[2]])
+        case = rp["case"]
+        for o in case["ops"]:
+            if "args" in o:
+                o["args"] = {p: tup(t) for p, t in o["args"].items()}
+        why = magnitude_check(case, sq, rp["v1"], rp["v2"])
+        print("replay: %s" % ("VIOLATION reproduced: " + why if why else "hessian with 'magnitude' as expected"))
+        return 1 if why else 0
     if kind == "hessian":
         def tup(t):
             return (t[0], Fraction(t[1])) if t[0] == "c" else (t[0], t[1]) if t[0] == "v" else (t[0], t[1], [tup(a) for a in t[2]])
